@@ -212,7 +212,7 @@ def _worker(arg) -> Acc:
     cfgj, tier = arg
     cfg = Cfg.from_json(cfgj)
     acc = Acc()
-    ce = ConfigExplorer(acc, cfg, tier, [checker], db_hook=make_db_hook(cfg), bound=bound_for(cfg, tier))
+    ce = ConfigExplorer(acc, cfg, tier, [checker], db_hook=make_db_hook(cfg), bound=bound_for(cfg, tier), bound2_max_points=24)
     ce.explore_e2()
     if hash(cfg.sid()) % 301 == 0:
         acc.sample({"configuration": cfg.sid(), "outcomes": ce.outcomes})
@@ -229,7 +229,7 @@ def run(ctx: Ctx) -> None:
         "execution is one evaluation; non-trivial = distinct (configuration, strategy kinds recorded, number of insertions)"
     )
     ctx.assumptions = ["emptiness judged by the domain's exact predicate; every rule met passes the domain gate (set arithmetic, sizes <= %d)" % GATE_N]
-    ctx.bounds = {"configurations": len(cfgs), "deviations": 1 if ctx.quick else "2 on the quick tier's configurations (default execution <= 40 decision points), 1 on the extension",
+    ctx.bounds = {"configurations": len(cfgs), "deviations": 1 if ctx.quick else "2 on the quick tier's configurations (default execution <= 24 decision points), 1 on the extension",
                   "horizon_packets": 60 if ctx.quick else 150}
     ctx.pmap(_worker, [(c.to_json(), ctx.tier) for c in cfgs], chunksize=2)
 
